@@ -218,4 +218,57 @@ theorem representable_ustar_not_failed (e : Entry) (p0 : List Nat) (hp : e.path 
       · cases hf : e.ftype <;> simp [hf, typesOf, ustarTypeflag] at h ⊢
       · exact absurd hh' h
 
+/-- The reader expects exactly as many body bytes as the writer declared (and wrote). -/
+theorem ustar_rem (e : Entry) (p0 : List Nat)
+    (hnotrail : e.ftype = .reg → e.hard = [] → p0.getLast? ≠ some slash)
+    (t : Nat) (ht : ustarType e none = some t) (rb : RB) (rem : Nat)
+    (hspec : ustarSpecRB e (dirSlash e.ftype p0) (ustarSize e) t = some (rb, rem)) :
+    rem = (ustarSize e).toNat ∧ rb.body = [] ∧ rb.bodySt = .eof := by
+  unfold ustarSize at hspec ⊢
+  unfold ustarType at ht
+  simp only [] at ht
+  by_cases hh : e.hard ≠ []
+  · rw [if_pos hh] at ht
+    have ht' := Option.some.inj ht
+    subst ht'
+    unfold ustarSpecRB tarTypeSwitch at hspec
+    simp only [hh, true_or, if_true, ne_eq, not_true_eq_false, not_false_eq_true] at hspec
+    have h49 : ¬(49 = 51 ∨ 49 = 52) := by omega
+    rw [if_neg h49] at hspec
+    unfold tarDirFix at hspec
+    have hreg : ¬((0 : Nat) = AE_IFREG ∧ (dirSlash e.ftype p0).getLast? = some slash) := by
+      intro h; exact absurd h.1 (by decide)
+    simp only [if_neg hreg, Option.some.injEq, Prod.mk.injEq] at hspec
+    obtain ⟨hrb, hrem⟩ := hspec
+    subst hrb
+    simp [hh, ← hrem]
+  · rw [if_neg hh] at ht
+    have hh' : e.hard = [] := by simpa using hh
+    cases hf : e.ftype <;> rw [hf] at ht <;> simp only [ustarTypeflag] at ht
+    all_goals cases ht
+    all_goals
+      unfold ustarSpecRB tarTypeSwitch tarDirFix at hspec
+      simp [hf, hh', AE_IFREG, AE_IFLNK, AE_IFCHR, AE_IFBLK, AE_IFDIR, AE_IFIFO] at hspec
+    · have hds : dirSlash FType.reg p0 = p0 := by unfold dirSlash; simp
+      rw [hds, if_neg (hnotrail hf hh')] at hspec
+      simp only [Prod.mk.injEq] at hspec
+      obtain ⟨rfl, hrem⟩ := hspec
+      simp [hh', hf, ← hrem]
+    all_goals
+      obtain ⟨rfl, hrem⟩ := hspec
+      simp [hh', hf, ← hrem]
+
+/-- Whether the header is accepted does not depend on the writer state. -/
+theorem ustarWriteHeader_status_indep (st st' : WState) (e : Entry) :
+    (ustarWriteHeader st e).1 = (ustarWriteHeader st' e).1 := by
+  unfold ustarWriteHeader
+  cases e.path with
+  | none => rfl
+  | some p0 =>
+    simp only []
+    by_cases hf : (ustarFormatHeader e (dirSlash e.ftype p0)
+        (if e.hard ≠ [] ∨ e.sym ≠ [] ∨ e.ftype ≠ .reg then 0 else e.sizeV) none true).1 = true
+    · rw [if_pos hf, if_pos hf]
+    · rw [if_neg hf, if_neg hf]
+
 end LA.Codec
